@@ -7,194 +7,12 @@
    [view]; an array handed in as a selection is [anyarray] = (dtype is bool, truth values).  The model's
    functions take these components as separate arguments; every theorem below is
        translated method (objects) = model function (their components)
-   with no side condition. *)
-From Coq Require Import ZArith List Bool Arith Lia ZifyBool.
-From Batchie Require Import Lib.Sexp Lib.PyRt Model.Encode Model.Screen Model.Views Generated.SrcViews
-  Proofs.PyRtLemmas Proofs.C14Lists.
-Import ListNotations.
-Open Scope Z_scope.
+   with no side condition.
 
-Lemma res_bind_ok {A} (r : result A) : (dor x <- r; Ok x) = r.
-Proof. destruct r; reflexivity. Qed.
-
-Lemma of_nat_eqb a b : (Z.of_nat a =? Z.of_nat b) = Nat.eqb a b.
-Proof. destruct (Nat.eqb_spec a b) as [->|H]; [apply Z.eqb_refl | apply Z.eqb_neq; lia]. Qed.
-
-Lemma res_map_all_ext {A B} (f g : A -> result B) : (forall a, f a = g a) -> forall l, res_map_all f l = res_map_all g l.
-Proof. intros H l. induction l as [|a l IH]; cbn [res_map_all]; [reflexivity|]. now rewrite H, IH. Qed.
-
-(* ---------------- sizes, the constructor ---------------- *)
-(* ScreenBase.size on a Screen object *)
-Theorem src_screen_size_is_model : forall s : pyscreen, src_screen_size s = Ok (Z.of_nat (screen_size (snd s))).
-Proof. reflexivity. Qed.
-
-(* ScreenSubset.__init__ (also what Plate(...) runs): whatever the fresh instance held, the two checks and then
-   the object (screen, selection_vector) *)
-Theorem src_view_init_is_model : forall (self : view) (s : pyscreen) (sv : anyarray),
-  src_view_init self s sv = mk_view (fst s) (snd s) (fst sv) (snd sv).
-Proof.
-  intros self s sv. unfold src_view_init, mk_view. destruct (negb (fst sv)); [reflexivity|].
-  rewrite src_screen_size_is_model. cbn [res_bind]. rewrite of_nat_eqb.
-  destruct (negb (Nat.eqb (length (snd sv)) (screen_size (snd s)))); reflexivity.
-Qed.
-
-(* ---------------- attribute properties: parent.attr[self.selection_vector] ---------------- *)
-Theorem src_view_attrs_are_model : forall v : view,
-  src_view_plate_ids v = Ok (view_pids v) /\
-  src_view_sample_ids v = Ok (view_sids v) /\
-  src_view_treatment_ids v = Ok (view_tids v) /\
-  src_view_sample_names v = Ok (view_sample_names v) /\
-  src_view_observations v = Ok (view_obs v) /\
-  src_view_observation_mask v = Ok (view_mask v) /\
-  (* the two 2-d arrays: the view's (name, dose) pairs, split, with the parent's number of columns *)
-  src_view_treatment_names v = Ok (s_arity (v_parent v), map (map fst) (view_treats v)) /\
-  src_view_treatment_doses v = Ok (s_arity (v_parent v), map (map snd) (view_treats v)) /\
-  (* not row-wise: handed through from the parent *)
-  src_view_control_treatment_name v = Ok (s_ctrl (v_parent v)) /\
-  src_view_treatment_mapping v = Ok (s_tmap (v_parent v)) /\
-  src_view_sample_mapping v = Ok (s_smap (v_parent v)) /\
-  src_view_plate_mapping v = Ok (s_pmap (v_parent v)).
-Proof.
-  intros v. repeat split; try reflexivity.
-  - unfold src_view_treatment_names, select2, screen_treatment_names, view_treats. cbn [fst snd view_screen].
-    now rewrite <- select_map, map_map.
-  - unfold src_view_treatment_doses, select2, screen_treatment_doses, view_treats. cbn [fst snd view_screen].
-    now rewrite <- select_map, map_map.
-Qed.
-
-(* single_treatment_effects: None when the parent's property is None, else its selected rows *)
-Theorem src_view_single_effects_is_model : forall (E : Type) (v : view) (parent_value : option (list E)),
-  src_view_single_treatment_effects E v parent_value = Ok (view_single_effects v parent_value).
-Proof. intros E v [l|]; reflexivity. Qed.
-
-(* ScreenBase.size on a ScreenSubset object *)
-Theorem src_view_size_is_model : forall v : view, src_view_size v = Ok (Z.of_nat (view_size v)).
-Proof. reflexivity. Qed.
-
-(* ---------------- ScreenSubset.subset / invert / combine / concat ---------------- *)
-Theorem src_view_subset_is_model : forall (v : view) (sv : anyarray),
-  src_view_subset v sv = view_subset v (fst sv) (snd sv).
-Proof.
-  intros v sv. unfold src_view_subset, view_subset. destruct (negb (fst sv)); [reflexivity|].
-  rewrite src_view_size_is_model. cbn [res_bind]. rewrite of_nat_eqb.
-  destruct (negb (Nat.eqb (length (snd sv)) (view_size v))); [reflexivity|].
-  rewrite src_view_init_is_model, res_bind_ok. reflexivity.
-Qed.
-
-Theorem src_view_invert_is_model : forall v : view, src_view_invert v = view_invert v.
-Proof. intros v. unfold src_view_invert. rewrite src_view_init_is_model, res_bind_ok. reflexivity. Qed.
-
-(* `other.screen is not self.screen` is the comparison of the parents' identity tags *)
-Theorem src_view_combine_is_model : forall a b : view, src_view_combine a b = view_combine a b.
-Proof.
-  intros a b. unfold src_view_combine, view_combine, same_object, view_screen. cbn [fst].
-  destruct (negb (v_tag b =? v_tag a)); [reflexivity|].
-  rewrite src_view_init_is_model, res_bind_ok. reflexivity.
-Qed.
-
-(* the loop of concat: [vs0] is the whole argument list (whose first element the body re-reads) *)
-Lemma concat_loop_src (vs0 : list view) (v0 : view)
-      (f : option (list bool) -> view -> result (option (list bool))) :
-  list_get vs0 0 = Ok v0 ->
-  (forall acc v, f acc v =
-     dor r <- list_get vs0 0;
-     if negb (same_object (view_screen v) (view_screen r)) then Err 23
-     else dor acc' <- (if is_none acc then Ok (Some (v_sel v))
-                       else dor u <- unwrap acc; Ok (Some (bor_vec u (v_sel v))));
-          Ok acc') ->
-  forall vs acc, res_fold f vs acc = concat_loop (v_tag v0) acc vs.
-Proof.
-  intros Hget Hf. induction vs as [|v vs IH]; intros acc; cbn [res_fold concat_loop]; [reflexivity|].
-  rewrite Hf, Hget. cbn [res_bind]. unfold same_object, view_screen. cbn [fst].
-  destruct (negb (v_tag v =? v_tag v0)); [reflexivity|].
-  destruct acc as [s|]; cbn [is_none unwrap res_bind]; apply IH.
-Qed.
-
-Lemma concat_loop_some tag : forall vs s, concat_loop tag (Some s) vs <> Ok None.
-Proof.
-  induction vs as [|v vs IH]; intros s; cbn [concat_loop]; [discriminate|].
-  destruct (negb (v_tag v =? tag)); [discriminate | apply IH].
-Qed.
-
-Lemma concat_loop_cons tag v vs acc : concat_loop tag acc (v :: vs) <> Ok None.
-Proof.
-  cbn [concat_loop]. destruct (negb (v_tag v =? tag)); [discriminate | apply concat_loop_some].
-Qed.
-
-Theorem src_view_concat_is_model : forall vs : list view, src_view_concat vs = view_concat vs.
-Proof.
-  intros [|v0 [|v1 r]]; [reflexivity | reflexivity |].
-  unfold src_view_concat, view_concat.
-  replace (Z.of_nat (length (v0 :: v1 :: r)) =? 1) with false by (cbn [length]; lia).
-  replace (Z.of_nat (length (v0 :: v1 :: r)) =? 0) with false by (cbn [length]; lia).
-  rewrite (concat_loop_src (v0 :: v1 :: r) v0) by (reflexivity || (intros; reflexivity)).
-  destruct (concat_loop (v_tag v0) None (v0 :: v1 :: r)) as [[s|]|e] eqn:E; cbn [res_bind].
-  - change (list_get (v0 :: v1 :: r) 0) with (Ok v0). cbn [res_bind unwrap].
-    rewrite src_view_init_is_model, res_bind_ok. reflexivity.
-  - exfalso. exact (concat_loop_cons _ _ _ _ E).
-  - reflexivity.
-Qed.
-
-(* ---------------- ScreenSubset.to_screen ---------------- *)
-Lemma combine_fst_snd {A B} (l : list (A * B)) : combine (map fst l) (map snd l) = l.
-Proof. induction l as [|[a b] l IH]; cbn [map combine fst snd]; [reflexivity | now rewrite IH]. Qed.
-
-(* the per-row arrays of a row list give the row list back *)
-Lemma rows_of_arrays_rows (rows : list row) :
-  rows_of_arrays (map (fun r => map fst (r_treats r)) rows) (map (fun r => map snd (r_treats r)) rows)
-                 (map r_obs rows) (map r_mask rows) (map r_sample rows) (map r_plate rows) = rows.
-Proof.
-  induction rows as [|x rows IH]; cbn [map rows_of_arrays]; [reflexivity|].
-  rewrite IH, combine_fst_snd. destruct x; reflexivity.
-Qed.
-
-(* Screen(...) receives the parent's six per-row arrays at the selected rows and the parent's control name: that is
-   the model's constructor on the selected rows, the parent's arity and control name, no mappings, observations and mask given *)
-Theorem src_to_screen_is_model : forall v : view, src_to_screen v = to_screen v.
-Proof.
-  intros v. unfold src_to_screen, to_screen, view_rows. rewrite res_bind_ok.
-  unfold screen_of_arrays, select2, screen_treatment_names, screen_treatment_doses, screen_mask, view_screen.
-  cbn [fst snd]. rewrite !select_map, rows_of_arrays_rows. reflexivity.
-Qed.
-
-(* ---------------- Screen.subset / subset_observed / subset_unobserved / get_plate / plates ---------------- *)
-Theorem src_screen_subset_is_model : forall (s : pyscreen) (sv : anyarray),
-  src_screen_subset s sv = screen_subset (fst s) (snd s) (fst sv) (snd sv).
-Proof.
-  intros s sv. unfold src_screen_subset, screen_subset. destruct (negb (fst sv)); [reflexivity|].
-  rewrite src_screen_size_is_model. cbn [res_bind]. rewrite of_nat_eqb.
-  destruct (negb (Nat.eqb (length (snd sv)) (screen_size (snd s)))); [reflexivity|].
-  rewrite src_view_init_is_model, res_bind_ok. reflexivity.
-Qed.
-
-(* None iff no row is observed; otherwise self.subset(mask) *)
-Theorem src_subset_observed_is_model : forall s : pyscreen,
-  src_subset_observed s = opt_result (subset_observed (fst s) (snd s)).
-Proof.
-  intros s. unfold src_subset_observed, subset_observed.
-  destruct (existsb (fun b => b) (screen_mask (snd s))); [|reflexivity].
-  rewrite src_screen_subset_is_model. reflexivity.
-Qed.
-
-Theorem src_subset_unobserved_is_model : forall s : pyscreen,
-  src_subset_unobserved s = opt_result (subset_unobserved (fst s) (snd s)).
-Proof.
-  intros s. unfold src_subset_unobserved, subset_unobserved.
-  destruct (existsb (fun b => b) (map negb (screen_mask (snd s)))); [|reflexivity].
-  rewrite src_screen_subset_is_model. reflexivity.
-Qed.
-
-Theorem src_get_plate_is_model : forall (s : pyscreen) (pid : Z),
-  src_get_plate s pid = get_plate (fst s) (snd s) pid.
-Proof. intros s pid. unfold src_get_plate. rewrite src_view_init_is_model, res_bind_ok. reflexivity. Qed.
-
-(* ScreenBase.unique_plate_ids on a Screen object *)
-Theorem src_unique_plate_ids_is_model : forall s : pyscreen,
-  src_unique_plate_ids s = Ok (sort_uniq Z.compare (s_pids (snd s))).
-Proof. reflexivity. Qed.
-
-Theorem src_plates_is_model : forall s : pyscreen, src_plates s = plates (fst s) (snd s).
-Proof.
-  intros s. unfold src_plates, plates. rewrite src_unique_plate_ids_is_model. cbn [res_bind].
-  rewrite res_bind_ok. apply res_map_all_ext. intros x. rewrite res_bind_ok. apply src_get_plate_is_model.
-Qed.
+   This file only collects the pieces: one file Proofs/C14Source_<Piece>.v per translated function (or per group of functions
+   that are stated together), so that a file of ANOTHER property which needs the link of one function imports that piece alone
+   and does not depend on the translations of the others. *)
+From Batchie Require Export Proofs.C14Source_Base Proofs.C14Source_ScreenSize Proofs.C14Source_ViewInit Proofs.C14Source_Attrs
+  Proofs.C14Source_SingleEffects Proofs.C14Source_ViewSize Proofs.C14Source_ViewSubset Proofs.C14Source_ViewInvert
+  Proofs.C14Source_ViewCombine Proofs.C14Source_ViewConcat Proofs.C14Source_ToScreen Proofs.C14Source_ScreenSubset
+  Proofs.C14Source_SubsetObserved Proofs.C14Source_GetPlate Proofs.C14Source_UniquePlateIds Proofs.C14Source_Plates.
